@@ -50,7 +50,43 @@ def correspondence(ctx):
     def versions_of(fam, i):
         return [G.BTC[i % 2], G.FORK[i % 6]]
     S.run(ctx, cases, versions_of, project, in_domain=in_domain)
+    utf8_family(ctx, r)
     blackbox(ctx, r)
+
+
+def utf8_family(ctx, r):
+    """ties the three notions of `valid UTF-8` the theorems mention to the code: Unicode Table 3-7 as the recogniser `L.valid`
+    (theorem lossy_valid_id), core Lean's validateUTF8 (the model's Bitcoin path) and Rust's String::from_utf8 (the code's Bitcoin
+    path: the payload is printed iff valid); and the lossy decoder of the fork path (model L.lossy vs Rust from_utf8_lossy)"""
+    pool = []
+    two = [bytes([a, b]) for a in (0xC0, 0xC1, 0xC2, 0xDF, 0xE0, 0xED, 0xEF, 0xF0, 0xF4, 0xF5, 0xFF, 0x80, 0xBF) for b in (0x7F, 0x80, 0x8F, 0x90, 0x9F, 0xA0, 0xBF, 0xC0)]
+    for t in two:
+        pool += [t, t + b"\x80", t + b"\x80\x80", t + b"\xbf\xbf\xbf", b"a" + t + b"z"]
+    for _ in range(ctx.n(600, 20000)):
+        k = r.random()
+        if k < 0.4:
+            pool.append(G.payload(r)[:70])
+        elif k < 0.7:
+            t = "aé€😀\u07ff\u0800\uffff\U00010000\U0010ffff".encode()
+            i, j = sorted((r.randrange(len(t) + 1), r.randrange(len(t) + 1)))
+            pool.append((t[:i] + t[j:])[:70] or b"x")
+        else:
+            pool.append(bytes(r.choice([0x41, 0x80, 0xBF, 0xC2, 0xE0, 0xED, 0xF0, 0xF4, 0x9F, 0xA0, 0x90, 0x8F, r.randrange(256)]) for _ in range(r.randrange(1, 9))))
+    pool = [x for x in dict.fromkeys(pool) if 1 <= len(x) <= 75]
+    m = ctx.model("utf8", [x.hex() for x in pool])
+    scripts = ["6a%02x%s" % (len(x), x.hex()) for x in pool]
+    btc = ctx.hook("script", ["00 " + q for q in scripts])
+    ltc = ctx.hook("script", ["30 " + q for q in scripts])
+    for x, a, b, c in zip(pool, m, btc, ltc):
+        table, core, lossy = a.split()
+        ctx.mark(("utf8", x), True)
+        ctx.families["utf8"] += 1
+        ctx.dist["utf8-valid=" + table] += 1
+        rust_valid = b.split()[2] != "-"
+        rust_lossy = c.split()[2]
+        if not (table == core == ("1" if rust_valid else "0")) or rust_lossy != lossy:
+            ctx.disagree("utf8", "payload " + x.hex(), {"rust_from_utf8_ok": rust_valid, "rust_lossy": rust_lossy}, {"table_3_7": table, "core_validateUTF8": core, "lossy": lossy}, True,
+                         {"full_request": "00 6a%02x%s" % (len(x), x.hex()), "observable": "UTF-8 validity / lossy decoding"})
 
 
 def blackbox(ctx, r):
@@ -73,6 +109,31 @@ def blackbox(ctx, r):
             s.start = r.randrange(0, len(blocks))
             s.stop = r.choice([None, s.start + 1 + r.randrange(len(blocks))])
         s.meta = {"i": i}
+        scns.append(s)
+    # payloads of several thousand bytes (beyond 4 KiB) and a run whose opreturn output exceeds 64 KiB several times over: every
+    # line must still be whole, in chain order, once the logger's own lines are removed
+    for coin in ("bitcoin", "litecoin"):
+        blocks = GC.gen_chain(r, coin, 6, max_txs=1, max_io=1, segwit=False, auxpow_mix=False)
+        sizes = [4092, 4093, 4097, 5000, 8191, 8192, 8200, 3000] * 8
+        k = 0
+        for b in blocks[1:]:
+            for _ in range(10 if ctx.thorough() else 6):
+                outs = []
+                for _o in range(2):
+                    n = sizes[k % len(sizes)]
+                    k += 1
+                    d = bytes(0x41 + (j * 7 + k) % 26 for j in range(n))
+                    outs.append((0, b"\x6a" + G.push_forms(d)[-1 if k % 3 else 0]))
+                outs.append((1, GC.spk(r, coin, "p2pkh")))
+                b.txs.append(K.Tx([(GC.rb(r, 32), 0, b"\x01\x01", 1)], outs))
+        prev = blocks[0].hash()
+        for b in blocks[1:]:
+            b.prev = prev
+            b.merkle_root = None
+            prev = b.hash()
+        s = K.Scenario(coin=coin, callback="opreturn")
+        GC.simple_layout(s, blocks)
+        s.meta = {"big-output": coin}
         scns.append(s)
     bb.check(ctx, "opreturn-chains", scns, [bb.cmp_exit, bb.cmp_opreturn], nontrivial=lambda s, m: len(m["out"]) > 0)
 
